@@ -246,6 +246,19 @@ func main() {
 				add(scenario("push|pop|push,pop", capa, fill, rot, "", prog{"push:1"}, prog{"pop"}, prog{"push:2", "pop"}))
 				add(scenario("push|pop|observer", capa, fill, rot, "", prog{"push:1"}, prog{"pop"}, prog{"len", "isempty", "isfull", "len"}))
 				add(scenario("pop|pop|push", capa, fill, rot, "", prog{"pop"}, prog{"pop"}, prog{"push:1"}))
+				if capa-fill >= 2 { // two pushers, room for both: at least one succeeds (also on capacity 2)
+					add(scenario("push|push", capa, fill, rot, "some-push", prog{"push:1"}, prog{"push:2"}))
+				}
+				if fill >= 2 {
+					add(scenario("pop|pop", capa, fill, rot, "some-pop", prog{"pop"}, prog{"pop"}))
+				}
+				// an observer against two operations per side: two pushes or two pops can fall between
+				// the two counter loads of one Len
+				if capa == 2 {
+					so := scenario("push,push|pop,pop|len", capa, fill, rot, "", prog{"push:1", "push:2"}, prog{"pop", "pop"}, prog{"len"})
+					so.Quick, so.Heavy = 3, true
+					add(so)
+				}
 				if capa-fill >= 3 {
 					add(scenario("push|push|push", capa, fill, rot, "some-push", prog{"push:1"}, prog{"push:2"}, prog{"push:3"}))
 				}
@@ -281,6 +294,13 @@ func main() {
 				scenario("pushwait0|popwait0", capa, capa, rot, "", prog{"pushwait0:1"}, prog{"popwait0"}),
 				scenario("pushwait0|popwait0", capa, 0, rot, "", prog{"pushwait0:1"}, prog{"popwait0"}),
 			)
+			if capa == 2 {
+				// contended blocking calls: two blocked producers (consumers) race for each freed slot (value)
+				w1 := scenario("pushwait|pushwait|popwait,popwait", capa, capa, rot, "", prog{"pushwait:1"}, prog{"pushwait:2"}, prog{"popwait", "popwait"})
+				w2 := scenario("pushwait,pushwait|popwait|popwait", capa, 0, rot, "", prog{"pushwait:1", "pushwait:2"}, prog{"popwait"}, prog{"popwait"})
+				w1.Quick, w1.Heavy, w2.Quick, w2.Heavy = 3, true, 3, true
+				specs = append(specs, w1, w2)
+			}
 			if rot == 0 || rot == 1<<32-1 {
 				// positive wait durations: the ticker is a daemon virtual thread, time is abstract
 				specs = append(specs,
